@@ -720,6 +720,9 @@ func (p *PX) instrs(fr *pxFrame, b *ssa.BasicBlock, from int, st *pxState, k pxC
 			if lt := p.term(x.Len, fr, st); p.views || lt.K == TConst {
 				// the length the slice is made with, as of now
 				st.vals["mklen:"+p.term(x, fr, st).key] = lt
+			} else {
+				// kept for the rules that ask for it by name (bounds of local slices)
+				st.vals["mklenx:"+p.term(x, fr, st).key] = lt
 			}
 		case *ssa.UnOp:
 			if x.Op == token.MUL {
